@@ -24,6 +24,7 @@ type params struct {
 	Lo   int   `json:"lo,omitempty"`
 	Hi   int   `json:"hi,omitempty"`
 	N    int   `json:"n,omitempty"`
+	Full bool  `json:"full,omitempty"`
 	Seed int64 `json:"seed"`
 }
 
@@ -83,6 +84,10 @@ func plan(seed int64, tier string) []vrt.Case {
 	}
 	for lo := 0; lo < nRebuild; lo += 10 {
 		add(fmt.Sprintf("rebuild-%d", lo), params{Kind: "rebuild", Lo: lo, Hi: min(lo+10, nRebuild), N: nRebuild})
+	}
+	nAlign := len(lzwork.AlignSpecs(tier == "thorough"))
+	for lo := 0; lo < nAlign; lo += 400 {
+		add(fmt.Sprintf("align-%d", lo), params{Kind: "align", Lo: lo, Hi: min(lo+400, nAlign), N: nAlign, Full: tier == "thorough"})
 	}
 	for _, r := range lzwork.ShortRanges("ab", ab, batch, "") {
 		add(rangeID("short", r), params{Kind: "short", Range: &r})
@@ -445,15 +450,20 @@ func (c *ctx) runLong(p params) {
 // compression and one round trip per input, header modes alternating.
 func (c *ctx) runRebuild(p params) {
 	specs := lzwork.RebuildSpecs(p.Seed, p.N)
+	if p.Kind == "align" {
+		specs = lzwork.AlignSpecs(p.Full)
+	}
 	var names []string
 	for i := p.Lo; i < p.Hi && i < len(specs); i++ {
 		sp := specs[i]
 		in := sp.Bytes()
 		what := sp.String()
-		names = append(names, what)
+		if len(names) < 12 {
+			names = append(names, what)
+		}
 		crc := i%2 == 0
 		c.o.Evals++
-		c.o.Count("inputs_rebuild_family", 1)
+		c.o.Count("inputs_"+p.Kind+"_family", 1)
 		c.o.Count("input_bytes", int64(len(in)))
 		whole, ok := c.compress(what, in, crc, nil, "whole")
 		if !ok {
@@ -473,7 +483,7 @@ func (c *ctx) runRebuild(p params) {
 		c.roundTrip(what, in, whole, crc, lzwork.Sources[i%len(lzwork.Sources)], lzwork.ReadPlan{Kind: "fixed", K: 4096})
 		c.o.Sig("%s|%d|%x", modeName(crc), len(in), hashOf(in))
 	}
-	c.o.Sample = map[string]any{"kind": "rebuild", "inputs": names}
+	c.o.Sample = map[string]any{"kind": p.Kind, "inputs": p.Hi - p.Lo, "first_inputs": names}
 }
 
 func run(cs vrt.Case) vrt.Obs {
@@ -488,7 +498,7 @@ func run(cs vrt.Case) vrt.Obs {
 		c.runParts(*p.Range, p.Tail)
 	case "long":
 		c.runLong(p)
-	case "rebuild":
+	case "rebuild", "align":
 		c.runRebuild(p)
 	default:
 		panic("c06: unknown case kind " + p.Kind)
